@@ -2,7 +2,7 @@
 import ast
 
 from ..model import AnalysisError, dotted, unparse
-from ..util import U, enum_paths, walk_no_nested, is_yield_call
+from ..util import has_fact, U, enum_paths, walk_no_nested, is_yield_call
 from ..paths import call_attr, call_name
 from .c03 import facts, load_writes, heap_calls, alias_env, add_remove
 
@@ -170,8 +170,8 @@ def r4(ctx):
     node = nd[0]
     fs = facts(ev)
     closes = [e for e in ev if e.kind == 'call' and U(e.node.func) == node + '.channel.Close']
-    idle_or_down = ('%s.load==self.Idle' % node, True) in fs or ('%s.load>=0' % node, True) in fs
-    loaded = ('%s.load==self.Idle' % node, False) in fs and ('%s.load>=0' % node, False) in fs
+    idle_or_down = has_fact(ev, None, '%s.load == self.Idle' % node) or has_fact(ev, None, '%s.load >= 0' % node)
+    loaded = has_fact(ev, None, '%s.load == self.Idle' % node, False) and has_fact(ev, None, '%s.load >= 0' % node, False)
     if idle_or_down:
       ctx.ob('C04.R4', r, 'idle or marked-down member is closed at once', len(closes) == 1, 'closes: %d under %s' % (len(closes), fs), why)
     elif loaded:
